@@ -248,6 +248,9 @@ def call_method(X, obj, name, args, kwargs):
             if X.decide(z3.Select(obj.has, k)):
                 return obj.vwrap(z3.Select(obj.val, k))
             return default
+        if name == 'clear':
+            obj.has = z3.K(obj.has.sort().domain(), z3.BoolVal(False))
+            return NONE
         if name == 'pop':
             k = obj.kunwrap(args[0])
             if X.decide(z3.Select(obj.has, k)):
